@@ -189,7 +189,10 @@ class ExprMixin:
                 if isinstance(a, str) and isinstance(b, str):
                     return a + b
                 if isinstance(a, (OpaqueStr, StrId)) or isinstance(b, (OpaqueStr, StrId)):
-                    return OpaqueStr("concat")
+                    r = OpaqueStr("concat")  # the pieces are kept so that contracts can state what is shown, in which order
+                    pieces = lambda x: list(x.parts) if isinstance(x, OpaqueStr) and x.desc == "concat" and hasattr(x, "parts") else [x]
+                    r.parts = pieces(a) + pieces(b)
+                    return r
                 return bstr_concat(a, b)
             if isinstance(op, ast.Mod):
                 return OpaqueStr("%")
@@ -198,6 +201,12 @@ class ExprMixin:
             return OpaqueStr("%")
         if ka == "s" and kb == "n" and isinstance(op, ast.Mult) and isinstance(a, str) and isinstance(b, int):
             return a * b
+        if ka == "n" and kb == "s" and isinstance(op, ast.Mult) and isinstance(b, str) and isinstance(a, int):
+            return a * b
+        if isinstance(op, ast.Mult) and {ka, kb} == {"n", "s"}:
+            raise Unsupported("str * symbolic")
+        if ka == "n" and kb == "list" and isinstance(op, ast.Mult):
+            return self.binop(op, b, a)
         if ka == "list" and kb == "list" and isinstance(op, ast.Add):
             if isinstance(a, list) and isinstance(b, list):
                 return a + b
